@@ -250,23 +250,23 @@ func addrLike(t types.Type) bool {
 // (receiver first for methods). Std callees not listed are assumed not to
 // write through their arguments (documented contracts).
 var stdWrites = map[string][]int{
-	"io.ReadFull":                            {1},
-	"io.ReadAtLeast":                         {1},
-	"crypto/rand.Read":                       {0},
-	"encoding/hex.Decode":                    {0},
-	"encoding/hex.Encode":                    {0},
-	"crypto/subtle.ConstantTimeCopy":         {1},
-	"crypto/subtle.XORBytes":                 {0},
-	"(*crypto/cipher.StreamReader).Read":     {1},
-	"(crypto/cipher.StreamReader).Read":      {1},
-	"(*math/big.Int).FillBytes":              {1},
-	"encoding/binary.Read":                   {2},
-	"encoding/binary.bigEndian.PutUint16":    {1},
-	"encoding/binary.bigEndian.PutUint32":    {1},
-	"encoding/binary.bigEndian.PutUint64":    {1},
-	"encoding/binary.littleEndian.PutUint16": {1},
-	"encoding/binary.littleEndian.PutUint32": {1},
-	"encoding/binary.littleEndian.PutUint64": {1},
+	"io.ReadFull":                              {1},
+	"io.ReadAtLeast":                           {1},
+	"crypto/rand.Read":                         {0},
+	"encoding/hex.Decode":                      {0},
+	"encoding/hex.Encode":                      {0},
+	"crypto/subtle.ConstantTimeCopy":           {1},
+	"crypto/subtle.XORBytes":                   {0},
+	"(*crypto/cipher.StreamReader).Read":       {1},
+	"(crypto/cipher.StreamReader).Read":        {1},
+	"(*math/big.Int).FillBytes":                {1},
+	"encoding/binary.Read":                     {2},
+	"(encoding/binary.bigEndian).PutUint16":    {1},
+	"(encoding/binary.bigEndian).PutUint32":    {1},
+	"(encoding/binary.bigEndian).PutUint64":    {1},
+	"(encoding/binary.littleEndian).PutUint16": {1},
+	"(encoding/binary.littleEndian).PutUint32": {1},
+	"(encoding/binary.littleEndian).PutUint64": {1},
 }
 
 // stdInvokeWrites: interface methods (by "(iface).Method") writing the memory
@@ -368,8 +368,15 @@ func tableSummary(f *ssa.Function) *Summary {
 		s.RetCont[0] = dRootSet(0, "")
 	}
 	if pk == "math/big" && recv != nil && len(s.RetAddr) > 0 {
-		s.RetAddr[0] = sRoot(0)
-		s.RetCont[0] = dRootSet(0, "")
+		// z.Op(...) returns z; Bytes/Append/Text/... return fresh storage;
+		// FillBytes returns the buffer it was given
+		if _, isPtr := f.Signature.Results().At(0).Type().(*types.Pointer); isPtr {
+			s.RetAddr[0] = sRoot(0)
+			s.RetCont[0] = dRootSet(0, "")
+		} else if f.Name() == "FillBytes" || f.Name() == "Append" {
+			s.RetAddr[0] = sRoot(1)
+			s.RetCont[0] = dRootSet(1, "")
+		}
 	}
 	return s
 }
